@@ -1069,7 +1069,7 @@ pub fn t_order_vft(a: &[i64]) -> Val {
 
 // t_equiv: a description and a rewritten but equivalent description (C20).
 //   extern X0 (s0, al), X1 (s1, al);  type T { [vftable { v0; v1 }] f0: X0, <gap g>, f1: X1 }  enum E: i32 { A = e0, B, C }
-// a = [ps, s0, s1, al, g, e0, vft, r_addr0, r_gap, r_size, r_index, r_enum, r_order, r_addr1, base_mode]
+// a = [ps, s0, s1, al, g, e0, vft, r_addr0, r_gap, r_size, r_index, r_enum, r_order, r_addr1, base_mode, packed]
 //   r_addr0 : f0 gets the explicit address it already has          r_addr1: same for f1
 //   r_gap   : the gap is written as `_: unknown<g>` in the first description and as #[address] on f1 in the second
 //   r_size  : #[size(natural size)] added        r_index : #[index(1)] on v1      r_enum : `B = e0 + 1` written out
@@ -1119,7 +1119,8 @@ pub fn t_equiv(a: &[i64]) -> Val {
             // the gap is an address on f1 in both descriptions
             stmts.push(mk_f1(true));
         }
-        let mut t_attrs = vec![A::integer_fn("align", al as isize)];
+        // a[15]: the type is packed (no align attribute then)
+        let mut t_attrs = if a[15] != 0 { vec![A::packed()] } else { vec![A::integer_fn("align", al as isize)] };
         if on(9) {
             t_attrs.push(A::integer_fn("size", natural as isize));
         }
